@@ -111,7 +111,7 @@ pub fn run(cfg: &Cfg) -> i32 {
     let mut ev = Evidence::new("C11", cfg);
     let quick = cfg.quick();
     let gr = expr_grammar(quick);
-    let maxn = if quick { 4 } else { 6 };
+    let maxn = if quick { 4 } else { 5 };
     let n_expr = AtomicU64::new(0);
     let n_expr_ok = AtomicU64::new(0);
     let n_cmp = AtomicU64::new(0);
